@@ -381,6 +381,8 @@ val linker_iargs : heap -> consts -> loc -> z -> iargs
 val copy_submodels :
   consts -> heap -> (z * val0) list -> (heap * (z * val0) list) option
 
+val linker_name : consts -> obj -> z
+
 val linker_copy_M : consts -> heap -> loc -> (heap * loc) option
 
 val reindex_cells :
@@ -432,6 +434,7 @@ type op =
 | OAliasAttr of z * path
 | OSetAttrNested of z * z list list
 | OSetAttrSet of z * z list
+| OSetAttrDict of z * (z * z) list
 | OReplaceSeries of z * z list
 
 val list_eqb : ('a1 -> 'a1 -> bool) -> 'a1 list -> 'a1 list -> bool
